@@ -676,4 +676,69 @@ theorem fastReplaceLoop_eq (units : List Nat) (repl : List Int → List Nat) (n 
     have := ih (rE r) (buf ++ sub units li (rS r) ++ repl r) h3
     exact this
 
+
+/-! ### Go's FindAll sweep vs the protocol's sweep; exec's lowerBound rule -/
+
+
+/-- no empty match starts exactly where the previous match ended -/
+def NoAdjEmpty : List MatchR → Option Nat → Prop
+  | [], _ => True
+  | r :: rest, prev => ¬ (r.stop = r.start ∧ prev = some r.start) ∧ NoAdjEmpty rest (some r.stop)
+
+theorem goAllLoop_eq_ideal (fl : RFlags) (f : Finder) (units : List Nat) : ∀ (fuel pos : Nat) (prev : Option Nat),
+    NoAdjEmpty (idealAllLoop fl f units false fuel pos none) prev →
+    goAllLoopU fl f units fuel pos prev = idealAllLoop fl f units false fuel pos none := by
+  intro fuel
+  induction fuel with
+  | zero => intro pos prev _; rfl
+  | succ fuel ih =>
+    intro pos prev h
+    simp only [goAllLoopU, idealAllLoop] at h ⊢
+    by_cases hp : pos > units.length
+    · simp [hp]
+    · simp only [hp, if_false] at h ⊢
+      cases hf : f pos with
+      | none => rfl
+      | some r =>
+        rw [hf] at h
+        have h12 : ((none : Option Nat) == some 1) = false := rfl
+        simp only [Bool.false_and, Bool.false_eq_true, if_false, Option.map_none, h12, NoAdjEmpty] at h ⊢
+        obtain ⟨h1, h2⟩ := h
+        have hacc : (!(r.stop == r.start && prev == some r.start)) = true := by
+          cases he : (r.stop == r.start) <;> cases hq : (prev == some r.start) <;> simp
+          exact h1 ⟨by simpa using he, by simpa using hq⟩
+        simp only [hacc, if_true]
+        rw [ih _ _ h2]
+
+
+
+/-- captures are unset (−1) or listed in order: each defined capture ends at or after the start of the previous
+defined one — the situation in which exec's `lowerBound` rule (regexp.go execResultToArray) hides nothing -/
+def CapsWF : List Int → Nat → Prop
+  | s :: e :: rest, lower => (s = -1 ∧ CapsWF rest lower) ∨ (0 ≤ s ∧ (lower : Int) ≤ e ∧ CapsWF rest s.toNat)
+  | _, _ => True
+
+theorem captureVals_eq_plain (units : List Nat) : ∀ (idx : List Int) (lower : Nat), CapsWF idx lower →
+    captureVals units idx lower = captureValsPlain units idx := by
+  intro idx
+  fun_induction captureValsPlain units idx with
+  | case1 s e rest ih =>
+    intro lower h
+    simp only [CapsWF] at h
+    rcases h with ⟨h1, h2⟩ | ⟨h1, h2, h3⟩
+    · subst h1
+      simp [captureVals, ih lower h2]
+    · have hne : s ≠ -1 := by omega
+      have hc : (decide (s ≥ 0) && decide (e ≥ (lower : Int))) = true := by simp [h1, h2]
+      simp [captureVals, hc, hne, ih s.toNat h3]
+  | case2 idx hnot =>
+    intro lower _
+    cases idx with
+    | nil => simp [captureVals]
+    | cons a t =>
+      cases t with
+      | nil => simp [captureVals]
+      | cons b t' => exact absurd rfl (hnot a b t')
+
+
 end GojaModel.C20
